@@ -934,7 +934,8 @@ def run(c: Check):
                           flags=[f for f in ("--tags", "--fullpath", "--ready") if rng.random() < 0.15]))
         if rng.random() < 0.2:                   # the filter is a text near the grammar
             while True:
-                nr = gen_near(rng, rng.choice(w["jobs"]) if w["jobs"] else gen_job(rng))
+                nr = gen_near(rng, rng.choice(w["jobs"]) if w["jobs"] else gen_job(rng),
+                              label=rng.choice(["op-case", "op-case", "kw-case", "no-spaces"] + NEAR_LABELS))
                 if nr["text"] != "":             # --filter "" is "no filter"
                     break
             cases[-1].update(expr=nr["expr"], text=nr["text"], near=dict(label=nr["label"], reading=nr["reading"]),
